@@ -45,15 +45,17 @@ const (
 
 var alphabets = map[string][]Op{
 	"wide": {
-		{A: "idle", Dt: sec}, {A: "idle", Dt: msec}, {A: "idle", Dt: 7 * sec}, {A: "idle", Dt: hour},
-		{A: "swap", P: 0, D: 0, X: M, Dt: sec}, {A: "swap", P: 0, D: 1, X: L, Dt: 7 * sec}, {A: "swap", P: 0, D: 0, X: S, Dt: msec},
-		{A: "swap", P: 1, D: 0, X: L, Dt: sec}, {A: "swap", P: 1, D: 1, X: M, Dt: 7 * sec}, {A: "swap", P: 1, D: 1, X: S, Dt: hour},
+		// three symbols put the next block at a non-zero sub-millisecond phase (all others at phase 0), so
+		// increasing and decreasing phases between consecutive records / query times both occur
+		{A: "idle", Dt: sec, Ns: 900000}, {A: "idle", Dt: msec}, {A: "idle", Dt: 7 * sec}, {A: "idle", Dt: hour},
+		{A: "swap", P: 0, D: 0, X: M, Dt: sec}, {A: "swap", P: 0, D: 1, X: L, Dt: 7 * sec, Ns: 100000}, {A: "swap", P: 0, D: 0, X: S, Dt: msec},
+		{A: "swap", P: 1, D: 0, X: L, Dt: sec}, {A: "swap", P: 1, D: 1, X: M, Dt: 7 * sec, Ns: 500000}, {A: "swap", P: 1, D: 1, X: S, Dt: hour},
 		{A: "toggle", Dt: sec}, {A: "toggle", Dt: 7 * sec},
 		{A: "prune", Dt: sec}, {A: "prune", Dt: msec},
 	},
 	"narrow": {
-		{A: "swap", P: 0, D: 0, X: M, Dt: sec}, {A: "swap", P: 0, D: 1, X: L, Dt: 7 * sec},
-		{A: "swap", P: 1, D: 1, X: M, Dt: msec}, {A: "swap", P: 1, D: 0, X: L, Dt: 7 * sec},
+		{A: "swap", P: 0, D: 0, X: M, Dt: sec, Ns: 900000}, {A: "swap", P: 0, D: 1, X: L, Dt: 7 * sec},
+		{A: "swap", P: 1, D: 1, X: M, Dt: msec}, {A: "swap", P: 1, D: 0, X: L, Dt: 7 * sec, Ns: 100000},
 		{A: "toggle", Dt: sec}, {A: "prune", Dt: sec},
 	},
 }
@@ -63,7 +65,7 @@ var alphabets = map[string][]Op{
 func seedOps(name string) []Op {
 	init := []Op{{A: "toggle", Dt: sec}}
 	aged := append(append([]Op{}, init...),
-		Op{A: "swap", P: 0, D: 0, X: M, Dt: sec}, Op{A: "swap", P: 1, D: 1, X: M, Dt: sec},
+		Op{A: "swap", P: 0, D: 0, X: M, Dt: sec, Ns: 700000}, Op{A: "swap", P: 1, D: 1, X: M, Dt: sec, Ns: 300000},
 		Op{A: "swap", P: 0, D: 1, X: L, Dt: 7 * sec}, Op{A: "swap", P: 1, D: 0, X: L, Dt: msec},
 		Op{A: "swap", P: 0, D: 0, X: S, Dt: sec}, Op{A: "swap", P: 1, D: 1, X: S, Dt: 7 * sec})
 	switch name {
